@@ -258,7 +258,12 @@ func (d *Decoder) LoadParityData() error {
 	}
 
 	d.shardByteCount = shardByteCount
-	d.parityData = parityData[:maxI+1]
+	// With 256 files there's no room for any parity volume, so
+	// parityData may be empty.
+	if len(parityData) > 0 {
+		parityData = parityData[:maxI+1]
+	}
+	d.parityData = parityData
 	return nil
 }
 
